@@ -80,6 +80,8 @@ type Expect struct {
 	Schema   bool     `json:"schema,omitempty"`
 	EchoReq  bool     `json:"echoReq,omitempty"` // a 400 must echo the request as received
 	Canary   bool     `json:"canary,omitempty"`
+	Name     string   `json:"name,omitempty"`     // name of the violated constraint / hostile body kind (part of the failure-class key)
+	NoShrink bool     `json:"noShrink,omitempty"` // the minimiser must not reduce this request's body
 }
 
 // C07Meta: structure of the request the oracles need (not expectations about values).
